@@ -21,11 +21,31 @@ class C04(TalCheck):
     prop = "C04"
     level = "exploration"
     gen_opts = {"on_error": 0.15, "max_sites": 26, "pipes": 0.45,
-                "prefixes": 0.3, "switch": 0.2, "macros": 0.12, "pyforms": 0.15, "i18n": 0.1, "code": 0.15, "mutlit": 0.12, "twins": 0.1}
+                "prefixes": 0.3, "switch": 0.2, "macros": 0.12, "pyforms": 0.15, "i18n": 0.1, "code": 0.15, "mutlit": 0.12, "twins": 0.1,
+                "attr_default_interp": 0.5}
     plans_per_template = 50
 
     def oracle(self, case, src, occ, tmpl, plan, hcfg, r, m, cover) -> list:
         vs = self._judge(tmpl, plan, hcfg, r, m, cover)
+        if vs and m.get("raw_attr_relevant"):
+            # Known finding F28: ``default`` from tal:attributes over a
+            # static attribute that contains ${...} emits the static text
+            # as it stands - the interpolation is reached and never
+            # evaluated.  Filed only when the whole observation equals the
+            # model variant that does exactly that.
+            variants = [{"raw_default_attr": True}]
+            if m.get("guard_relevant"):
+                variants.append({"raw_default_attr": True,
+                                 "guard_tags": False})
+            for kw in variants:
+                alt = run_model(tmpl, plan, hcfg, **kw)
+                if not self._judge(tmpl, plan, hcfg, r, alt, set()):
+                    return [{
+                        "kind": "history",
+                        "sig": "default-attribute-interpolation-not-evaluated",
+                        "detail": f"rendered {str(r['out'])[:300]!r}, probe "
+                                  f"history {r['history']}; expected "
+                                  f"{str(m['out'])[:300]!r}, {m['history']}"}]
         if vs and m.get("guard_relevant"):
             # C13's known finding F12 (a fallback loses the tags of an
             # element with an omit-tag expression) and what follows from it
